@@ -17,6 +17,7 @@ type lmEntry struct {
 	t     time.Duration // virtual time of that action
 	owner string        // filled in by checkers: who caused it
 	conn  string        // connection whose goroutine held the exclusive lock when it was appended
+	op    *Op           // the client op that caused it (set when claimed)
 	res   mResult       // model result of applying it
 	gen   int           // log generation (bumped by a rewrite)
 }
